@@ -261,13 +261,7 @@ class World:
         sim = self.sim
         sim.restarts += 1
         sim.lock_universe = ("restart", sim.restarts)
-        fs = self.fs
-        for raw in list(fs.open_raws):
-            if getattr(raw.node, "flock_owner", None) is raw:
-                raw.node.flock_owner = None
-        fs.open_raws = []
-        fs.fds = {}
-        fs.open_writers = {}
+        self.fs.drop_process_state()
         sim.count("fault.process.crash-and-restart")
         sim.log(f"CRASH {why}: process killed; a new process starts on what the disk holds")
 
